@@ -11,20 +11,26 @@ From Hub Require Import Base.Prelude Base.Arith Model.Types Model.Keeper Model.H
 Definition mint_params_valid (mx mn rc : Z) : bool :=
   (0 <=? rc) && (rc <=? P18) && (0 <=? mx) && (mx <=? P18) && (0 <=? mn) && (mn <=? P18) && (mn <=? mx).
 
-Definition mint_begin_block (s : state) : res state :=
-  let items := map snd (sort_by (fun x y => Z.compare x.1 y.1) (map_to_list (inflations s))) in
-  (* the callback returns true (stop) at the first entry in the future *)
-  (fix go (l : list inflation) (s : state) : res state :=
-     match l with
-     | [] => Ok s
-     | it :: l' =>
-         if now s <? inf_ts it then Ok s
-         else
-           let! _ := assertp (mint_params_valid (inf_max it) (inf_min it) (inf_rate it)) in
-           go l' (s <| mint_max := inf_max it |> <| mint_min := inf_min it |> <| mint_rate := inf_rate it |>
-                    <| mint_inflation := inf_min it |>
-                    <| inflations ::= fun m => delete (inf_ts it) m |>)
-     end) items s.
+Definition mint_apply (s : state) (it : inflation) : state :=
+  s <| mint_max := inf_max it |> <| mint_min := inf_min it |> <| mint_rate := inf_rate it |>
+    <| mint_inflation := inf_min it |>
+    <| inflations ::= fun m => delete (inf_ts it) m |>.
+
+(* the callback returns true (stop) at the first entry in the future *)
+Fixpoint mint_loop (l : list inflation) (s : state) : res state :=
+  match l with
+  | [] => Ok s
+  | it :: l' =>
+      if now s <? inf_ts it then Ok s
+      else
+        let! _ := assertp (mint_params_valid (inf_max it) (inf_min it) (inf_rate it)) in
+        mint_loop l' (mint_apply s it)
+  end.
+
+Definition mint_items (s : state) : list inflation :=
+  map snd (sort_by (fun x y => Z.compare x.1 y.1) (map_to_list (inflations s))).
+
+Definition mint_begin_block (s : state) : res state := mint_loop (mint_items s) s.
 
 (** * subscription.BeginBlock: hourly payouts *)
 
